@@ -313,6 +313,11 @@ func c20(e *Env) {
 	r.Assume("the exported Registry…Factory mutators are not called concurrently: the property says tables are only read after start-up", "the race detector judges only the accesses the workload performed")
 	type run struct{ bin, mode, label string }
 	runs := []run{{os.Getenv("VERIF_BIN"), "workload-child", "plain_build_workload"}, {os.Getenv("VERIF_BIN_RACE"), "race-workload-child", "race_build_workload"}}
+	if e.Thorough {
+		// the same workloads again with fewer processors: different interleavings (more preemption inside calls)
+		runs = append(runs, run{os.Getenv("VERIF_BIN_RACE"), "race-workload-child", "race_build_workload_GOMAXPROCS_2"}, run{os.Getenv("VERIF_BIN"), "workload-child", "plain_build_workload_GOMAXPROCS_4"})
+	}
+	nbig := len(runs)
 	nfirst := e.N(4, 32)
 	for i := 0; i < nfirst; i++ {
 		b, l := os.Getenv("VERIF_BIN"), "plain"
@@ -328,7 +333,7 @@ func c20(e *Env) {
 	sem := make(chan struct{}, 4)
 	var wg sync.WaitGroup
 	for ri, rn := range runs {
-		if ri == 2 {
+		if ri == nbig {
 			wg.Wait()
 		}
 		wg.Add(1)
@@ -347,6 +352,9 @@ func c20(e *Env) {
 			}
 			cmd := exec.Command(rn.bin, "C20", "--tier", e.Tier, "--seed", fmt.Sprint(e.Seed+int64(ri)*1000), rn.mode)
 			cmd.Env = append(os.Environ(), "VERIF_CHILD=1", "GORACE=halt_on_error=0 log_path="+logBase+"/race")
+			if i := strings.Index(rn.label, "GOMAXPROCS_"); i >= 0 {
+				cmd.Env = append(cmd.Env, "GOMAXPROCS="+rn.label[i+len("GOMAXPROCS_"):])
+			}
 			out, err := cmd.CombinedOutput()
 			races := 0
 			first := ""
@@ -379,7 +387,7 @@ func c20(e *Env) {
 			r.AddViolations(sum.Violations)
 			r.Evals(sum.Evaluations)
 			r.DistinctAdd(sum.Distinct)
-			if ri < 2 {
+			if ri < nbig {
 				for _, sm := range sum.Samples {
 					r.Sample(sm)
 				}
@@ -403,7 +411,7 @@ func c20(e *Env) {
 				}
 			}
 		}
-		if ri < 2 {
+		if ri < nbig {
 			one(ri, rn)
 		} else {
 			go one(ri, rn)
